@@ -234,6 +234,10 @@ def execute(spec):
         _write_exec(cmdpath)
     if spec.get('model_cc') is not None:
         _write_exec(ccpath)
+    for fn, data in (spec.get('preexisting') or {}).items():
+        # files left behind by an earlier (killed) run
+        with open(os.path.join(sb, os.path.basename(fn)), 'wb') as f:
+            f.write(data if isinstance(data, bytes) else data.encode('latin-1'))
     in_bytes = spec['input'].encode() if usage not in (
         'no_infile', 'infile_is_dir') else None
 
